@@ -144,7 +144,23 @@ def profile_list(tier):
             if tier == "quick" and prof.name in ("weights-on-unweighted",):
                 continue
             P.append((mod.PROP + ":" + prof.name, prof))
+            if prof.name == "metadata":
+                P.append((mod.PROP + ":metadata-key-order", key_order_profile(prof)))
     return P
+
+
+def key_order_profile(prof):
+    """same content reached by setting two attributes in either order (and by removing and re-setting one): the metadata
+    of a node, of a hyperedge and of the hypergraph are dictionaries, the order in which their keys were created is not content"""
+    from ..explore import Profile
+
+    n = next(o[1] for o in prof.ops if o[0] == "add_node")
+    raw, x = next((o[1], o[2]) for o in prof.ops if o[0] == "add_edge")
+    ops = [("add_node", n, None), ("add_edge", raw, x, None, None)]
+    for k, v in (("k", 1), ("j", 2)):
+        ops += [("set_attr_node", n, k, v), ("rm_attr_node", n, k), ("set_attr_edge", raw, x, k, v), ("rm_attr_edge", raw, x, k)]
+    ops += [("set_attr_hg", "x", 1), ("set_attr_hg", "y", 2)]
+    return Profile("metadata-key-order", prof.spec, False, ops)
 
 
 FLOAT_OPS = {
